@@ -239,6 +239,11 @@ def compare(op, a, b):
             return True if (is_conc(a) and is_conc(b)) else _tl("string comparison with symbolic value")
         raise ToolLimit("string comparison")
     sa, sb = sort_of(a), sort_of(b)
+    if (isinstance(a, Opaque) and isinstance(b, bool)) and op in ("is", "is not"):
+        # `x is False` on a value the engine does not model (e.g. a DataFrame-or-False result): an arbitrary Boolean
+        # determined by the value (same tag -> same Boolean)
+        t = z3.Bool("opaque_is_%s:%s" % (b, a.tag))
+        return t if op == "is" else z3.Not(t)
     if sa is None or sb is None:
         if isinstance(a, Ref) and isinstance(b, Ref) and op in ("is", "==", "is not", "!="):
             r = a.oid == b.oid
